@@ -44,4 +44,26 @@ PROPS = {
                         "integral tolerance 64*eps*sum_j max|f_j|*(|x_l|+|x_r|+h_j): the conditioning of the antiderivative-difference formula",
                         "extrema tolerance 8 ulp of the largest sampled |value|; in the 1% extrapolation zone attainment is relaxed to 1e-3 of the sampled range"],
     },
+    "C14": {
+        "engine": "mc",
+        "batches": {
+            "quick": [{"config": "clang-O2", "runs": 500}, {"config": "gcc-O1-asan-ubsan", "runs": 100}],
+            "thorough": [{"config": "clang-O2", "runs": 6000}, {"config": "gcc-O1-asan-ubsan", "runs": 600}],
+        },
+        "rule": "One run = one call history in a pristine process image: 2-13 integrator requests owned by 1-3 clients and interleaved by the "
+                "seeded scheduler (method in {Monte-Carlo, Vegas, Miser} through Integrate_MC or the Integrate_2D/3D front ends, 1-6 "
+                "dimensions, offset anisotropic regions, budgets 1e3..1e6, six integrand families, plan-chosen std::random_device output "
+                "per call incl. 0, 1, 2^32-1 and repeats). Checked per call: containment of every sample in its own axis limits, one "
+                "device draw and no other entropy, evaluation budget, exactness on constants, six-SE accuracy (with replayable "
+                "escalation) on regular smooth integrands; over the history: the last call and two others are re-run alone in a "
+                "pristine grandchild and must agree bit for bit (value, evaluation count, hash of all sample points); verbatim repeats "
+                "inside the history must agree too. Non-trivial: a compared call is preceded by >=2 calls differing from it in "
+                "dimension and in method. Distinct = distinct plan text hash among non-trivial runs.",
+        "states_measure": "distinct tuples (method, ndim, budget bucket, previous method, previous ndim, history-length bucket) of executed calls",
+        "components": {"real": ["libphysica::Integrate_MC / Integrate_MC_Vegas / Miser / brute force", "Integrate_2D/Integrate_3D front ends", "std::mt19937 seeded by the shipped code path PRNG(rd())"] + REAL_ALL,
+                       "stub": ["std::random_device::_M_getval (link-time wrap: value chosen by the plan)", "integrands (harness callbacks with closed-form integrals that record every sample point)"]},
+        "assumptions": ["accuracy clause uses the plain-MC standard error V*sigma_f/sqrt(N_eff) (N_eff = N, N/5 for Vegas, N/2 for Miser) because the library returns no error estimate; only 'regular' integrands (sup|f-mean| <= 0.1 sigma sqrt(N_eff)) are judged",
+                        "escalation rule: an excursion beyond 6 SE is a violation only if >=2 of 9 seeds exceed 5 SE (false-alarm probability ~1e-10)",
+                        "a pristine process image is obtained by fork() of a process that never called libphysica"],
+    },
 }
